@@ -71,6 +71,9 @@ def parse_address(text: str) -> Tuple[str, int]:
         text)
 
     if match:
+        if any(int(group) > 255 for group in match.groups()):
+            raise ValueError('Invalid address')
+
         return (
             '{0}.{1}.{2}.{3}'.format(int(match.group(1)),
                                      int(match.group(2)),
